@@ -157,7 +157,7 @@ impl Property for C08 {
         ]
     }
     fn expected_probes(&self) -> Vec<&'static str> {
-        vec!["path_cpu_c000_bank7", "shadow_displayed", "flash_runs_checked", "beam_before", "beam_after", "path_poke", "path_sna", "path_szx", "path_scr", "path_fastload", "path_fastload_part", "path_fastload_c000", "path_cpu_words", "beam_host_write", "beam_paging_write_same_frame"]
+        vec!["path_cpu_c000_bank7", "shadow_displayed", "flash_runs_checked", "beam_before", "beam_after", "path_poke", "path_sna", "path_szx", "path_scr", "path_fastload", "path_fastload_part", "path_fastload_c000", "path_cpu_words", "snapshot_saved_with_sp_in_screen", "screen_selected_with_lock_bit", "beam_host_write", "beam_paging_write_same_frame"]
     }
 
     fn gen(&self, rng: &mut Rng, tier: Tier, idx: u64) -> Scenario {
@@ -185,6 +185,9 @@ impl Property for C08 {
                 sc.set("fl_off", *rng.pick(&[0i64, 0, 1, 0x17FF, 0x1800, 0x1AFF, r1]));
                 sc.set("fl_len", *rng.pick(&[1i64, 2, 256, 6912, r2, r3]));
                 sc.set("fl_lead", *rng.pick(&[0i64, 0, 1, 256]));
+                sc.set("save_sna", if rng.chance(1, 4) { rng.range(1, 60000) } else { 0 });
+                // the displayed screen may be selected together with the paging lock bit
+                sc.set("shadow_lock", rng.chance(1, 4) as i64);
                 sc.set("shadow", (m128 && rng.bool()) as i64);
                 sc.set("chunk", *rng.pick(&[0i64, 1, 100, 4096]));
                 sc.set("frames", rng.range(2, 5));
@@ -406,16 +409,31 @@ impl Property for C08 {
                     }
                 }
                 // select the displayed bank
+                let shadow_lock = m128 && sc.get("shadow_lock") != 0;
                 if m128 {
                     let (latch, _, _) = e.verif_paging();
-                    let v = (latch & !0x08) | if shadow { 0x08 } else { 0 };
+                    let v = (latch & !0x08) | if shadow { 0x08 } else { 0 } | if shadow_lock { 0x20 } else { 0 };
                     e.verif_bus().write_io(0x7FFD, v);
                     if shadow {
                         ctx.probe("shadow_displayed");
                     }
+                    if shadow_lock {
+                        ctx.probe("screen_selected_with_lock_bit");
+                    }
                 }
                 if path != 1 && path != 2 && path != 7 && path != 9 && path != 10 {
                     idle_cpu_keep(&mut e);
+                }
+                // the host takes a snapshot while the stack pointer is inside the display file (the 48K SNA
+                // format parks PC on the stack for the duration of the save): the picture stays the decode
+                // of the - unchanged - screen memory
+                if sc.get("save_sna") != 0 {
+                    ctx.probe("snapshot_saved_with_sp_in_screen");
+                    let mut st = cpu_state(&mut e);
+                    st.sp = 0x4000 + 2 + (sc.get("save_sna") as u16 % 6908);
+                    st.to_impl(e.verif_cpu());
+                    let (rec, _out) = SimRecorder::new(RecorderPlan::default());
+                    e.save_snapshot(rustzx_core::host::SnapshotRecorder::Sna(rec)).map_err(|x| Fail::new("C08.save_snapshot", "", format!("{:?}", x)))?;
                 }
                 // quiet frames
                 let frames = sc.get("frames").clamp(2, 8) as usize;
@@ -435,8 +453,14 @@ impl Property for C08 {
                     ctx.state(hs.get());
                     ctx.sim_t += cfg.frame_len() as u64;
                 }
-                // toggle the displayed screen once more and compare again (128K)
-                if m128 {
+                // toggle the displayed screen once more and compare again (128K); a locked latch ignores the
+                // write and keeps showing the same bank
+                if m128 && shadow_lock {
+                    let (latch, _, _) = e.verif_paging();
+                    e.verif_bus().write_io(0x7FFD, latch ^ 0x08);
+                    run_frames(&mut e, 2).map_err(|x| Fail::new("C08.run", "", x))?;
+                    check_frame(&mut e, m128, shadow, pname, ctx)?;
+                } else if m128 {
                     let (latch, _, _) = e.verif_paging();
                     e.verif_bus().write_io(0x7FFD, latch ^ 0x08);
                     run_frames(&mut e, 2).map_err(|x| Fail::new("C08.run", "", x))?;
